@@ -80,7 +80,7 @@ class FieldStorageInterface(metaclass=ABCMeta):
         if key in self:
             value = self[key]
             if isinstance(value, list):
-                return func(value[0])
+                return func(value[0]) if value else default
             return func(value)
         return default
 
